@@ -102,6 +102,24 @@ Theorem C56_check_fee_rate_not_sufficient_refuted :
 Proof. exact check_fee_rate_not_sufficient_refuted. Qed.
 Print Assumptions C56_check_fee_rate_not_sufficient_refuted.
 
+(* transcription of EstimateFeeRate (no explicit feerate; CheckFeeRate is then not run): if the replacement is at least as large
+   as the original, paying the estimated feerate on its size covers old fee + incremental relay fee for its size ... *)
+Theorem C56_estimate_rate_suffices : forall e incr old osz rq0 S',
+  0 <= old -> 0 < osz <= S' -> 0 <= incr ->
+  old + get_fee incr S' <= get_fee (estimate_rate e incr old osz rq0) S'.
+Proof. exact estimate_rate_suffices. Qed.
+Print Assumptions C56_estimate_rate_suffices.
+
+(* ... but with the `outputs` option the replacement can be smaller, and then the new fee can be BELOW the old fee: the clause
+   "pays at least the original fee plus the incremental relay fee" fails in the real code.  Witness = a replacement the real
+   wallet produced and the mempool rejected (corpus/C56/fee_bump.findings.case, second case). *)
+Theorem C56_estimate_rate_not_sufficient_refuted :
+  exists e incr old osz rq0 S',
+    0 <= old /\ 0 < S' < osz /\ 0 <= incr /\
+    get_fee (estimate_rate e incr old osz rq0) S' < old.
+Proof. exact estimate_rate_not_sufficient_refuted. Qed.
+Print Assumptions C56_estimate_rate_not_sufficient_refuted.
+
 (* non-vacuity: the replacement the real wallet produced for a 219-vbyte payment (one 300000-sat legacy coin, recipient
    150000, change 149781, bumped with an explicit 3000 sat/kvB) is accepted; dropping the original input, or paying
    less than old fee + increment, is rejected; an already-bumped original is rejected. *)
